@@ -320,12 +320,6 @@ func (w *world) debugGarbage() string {
 		_ = d
 	}
 	for n, sh := range w.st.shards() {
-		for k := 0; k < 3; k++ {
-			b1, _ := sh.VerifGetGarbage(w.batch)
-			cur, proc := sh.VerifGCEpochs()
-			fmt.Fprintf(&b, "\nshard %d: epochs cur=%d processed=%d GetGarbage(batch)=%v", n, cur, proc, b1)
-			sh.VerifGCPass()
-		}
 		bins, err := sh.VerifGetGarbage(100)
 		fmt.Fprintf(&b, "\nshard %d garbage (err=%v):", n, err)
 		for _, bin := range bins {
@@ -714,13 +708,26 @@ func (w *world) view() string {
 	b.WriteString(dg)
 	for _, sh := range w.st.shards() {
 		for c := 0; c < nCnr; c++ {
-			for i := 0; i < perCnr; i++ {
+			for i := 0; i <= chainParent; i++ {
 				exs, err := sh.Exists(id{c, i}.addr(), true)
 				fmt.Fprintf(&b, "|%v:%s", exs, errShort(err))
 			}
 		}
 		l, _ := sh.ListContainers()
 		fmt.Fprintf(&b, "#%d", len(l))
+		// everything a GC pass could still work on (garbage marks of IDs that were
+		// never stored, empty dead containers, ...) is part of the view
+		bins, err := sh.VerifGetGarbage(10000)
+		if err != nil {
+			ev.Inconclusive("get garbage: %v", err)
+		}
+		for _, bin := range bins {
+			fmt.Fprintf(&b, "{%s:%d", bin.Container, len(bin.Objects))
+			for _, o := range bin.Objects {
+				b.WriteString(" " + o.EncodeToString()[:6])
+			}
+			b.WriteString("}")
+		}
 	}
 	return b.String()
 }
